@@ -365,7 +365,7 @@ def execute(sim, plan, _scratch=None):
                 # fallback a moment ago and must not have lost their data
                 others = [r for r in mh.order if r not in anc and r.encode() in {k[0] for k in repo.revisions.keys()}]
                 for kind_, rid, fid, detail in storesim.dag_problems(repo, mh, others, per_file=False):
-                    sim.fail("unstacked", ["unstacked", fmt, "revisions-outside-tip-ancestry-unreadable-after-unstack"], f"{tag}: the unstacked repository still lists {rid} (not an ancestor of the tip {tip}; listed revisions outside the tip's ancestry: {others}) but can no longer read it: {detail}")
+                    sim.fail("unstacked", ["unstacked", "all-stackable-formats", "revisions-outside-tip-ancestry-unreadable-after-unstack"], f"{tag}: the unstacked repository still lists {rid} (not an ancestor of the tip {tip}; listed revisions outside the tip's ancestry: {others}) but can no longer read it: {detail}")
             complete = all(set(mh.ancestry(r)) & set(mh.revs) <= {x.decode() for x in repo.has_revisions([a.encode() for a in mh.ancestry(r)])} for r in (k[0].decode() for k in repo.revisions.keys()) if r in mh.revs)
         if complete:
             prob = storesim.check_clean(repo)
